@@ -9,6 +9,8 @@
   majority) combines these with election safety; its cluster-level tie is E4.
 -/
 import RaftVerif.Proofs.ElectionLemmas
+import RaftVerif.Proofs.Prevote
+import RaftVerif.Proofs.ReplExample
 set_option linter.unusedSimpArgs false
 namespace Raft
 open Node
@@ -79,5 +81,58 @@ example : requestVote { id := 1, term := 3, lastContact := 900, config := ⟨1, 
     { candidate := 3, term := 99, lastIndex := 50, lastTerm := 98, prevote := false } =
     some ({ id := 1, term := 3, lastContact := 900, config := ⟨1, [(1, true), (2, true), (3, true)]⟩ }, { term := 3, granted := false }, []) := by
   decide
+
+/-! ### Cluster level, with time (Model/Prevote.lean, Proofs/Prevote.lean)
+
+    Terms move only by a candidacy (after prevotes of a quorum in the candidate's current round) or
+    by adopting the term of another node. A prevote is granted only by a node that has not accepted
+    a leader's request within the election timeout. Any node may start rounds, ask, be granted by
+    whoever is not in contact, adopt and crash at any time (isolated and rejoining, restarting,
+    removed, campaigning repeatedly: all of it). -/
+
+/-- **No prevote round begun while a quorum is in prompt contact with a leader leads to a
+    candidacy**: if a candidacy is enabled for `c` in a run every state of which has the members
+    of the quorum `Q` in contact, then `c`'s round began no later than the run (on prevotes
+    granted before it). -/
+theorem C16_no_candidacy_from_rounds_begun_in_contact {cfg : Config} (hnd : cfg.voterIds.Nodup) {ET : Nat} {Q : List Nat}
+    (hQ : Repl.IsQuorum cfg Q) {s0 a : Prevote.PState} (hr : Prevote.PReachable cfg ET s0)
+    (hrun : Prevote.RunP cfg ET (Prevote.QContact ET Q) s0 a) (c : Nat) (hnew : s0.now < a.roundStart c) :
+    ¬ ∃ Q', Repl.IsQuorum cfg Q' ∧ ∀ m ∈ Q', ∃ τ, a.roundStart c ≤ τ ∧ (c, m, τ) ∈ a.grants := by
+  rintro ⟨Q', hQ', hg⟩
+  have := Prevote.candidacy_needs_old_round hnd hQ hr hrun c Q' hQ' hg
+  omega
+
+/-- **Without a candidacy no term in the cluster grows beyond what was there**: the leader never
+    meets a higher term, so it does not step down, and the majority's term does not increase. -/
+theorem C16_terms_only_copied {cfg : Config} {ET : Nat} {s0 s : Prevote.PState} (h : Prevote.RunNoCand cfg ET s0 s) :
+    ∀ n, ∃ k, s.term n ≤ s0.term k := Prevote.terms_only_copied h
+
+/-- Non-vacuity: nodes 1 and 2 of three accept a leader's request at time 0; 100 ms later node 3
+    (isolated) starts a round and grants itself a prevote. Its round can not complete: every
+    quorum contains node 1 or node 2, and neither grants while in contact. -/
+example : ∃ a : Prevote.PState, Prevote.RunP Repl.cfg3 300 (Prevote.QContact 300 [1, 2])
+      { heard := Prevote.setAt (Prevote.setAt (fun _ => none) 1 (some 0)) 2 (some 0) } a ∧
+    a.roundStart 3 = 100 ∧ (3, 3, 100) ∈ a.grants ∧
+    ¬ ∃ Q', Repl.IsQuorum Repl.cfg3 Q' ∧ ∀ m ∈ Q', ∃ τ, a.roundStart 3 ≤ τ ∧ (3, m, τ) ∈ a.grants := by
+  obtain ⟨s0, hs0⟩ : ∃ s0 : Prevote.PState, s0 = { heard := Prevote.setAt (Prevote.setAt (fun _ => none) 1 (some 0)) 2 (some 0) } := ⟨_, rfl⟩
+  have hreach : Prevote.PReachable Repl.cfg3 300 s0 := by
+    rw [hs0]
+    exact Prevote.PReachable.step (Prevote.PReachable.step Prevote.PReachable.base (Prevote.PStep.contact _ 1)) (Prevote.PStep.contact _ 2)
+  have hc : ∀ (s : Prevote.PState), s.heard = s0.heard → s.now < 300 → Prevote.QContact 300 [1, 2] s := by
+    intro s hh hn m hm
+    simp only [List.mem_cons, List.mem_nil_iff, or_false] at hm
+    rcases hm with rfl | rfl
+    · exact ⟨0, by rw [hh, hs0]; simp [Prevote.setAt], by omega⟩
+    · exact ⟨0, by rw [hh, hs0]; simp [Prevote.setAt], by omega⟩
+  have r0 : Prevote.RunP Repl.cfg3 300 (Prevote.QContact 300 [1, 2]) s0 s0 := Prevote.RunP.base (hc s0 rfl (by rw [hs0]; decide))
+  have r1 := Prevote.RunP.step r0 (Prevote.PStep.tick s0 100) (hc _ rfl (by rw [hs0]; decide))
+  have r2 := Prevote.RunP.step r1 (Prevote.PStep.startRound _ 3) (hc _ rfl (by rw [hs0]; decide))
+  have hg3 : ¬ Prevote.inContact 300 { s0 with now := s0.now + 100, roundStart := Prevote.setAt s0.roundStart 3 (s0.now + 100) } 3 := by
+    rintro ⟨h, hh, _⟩
+    rw [hs0] at hh; simp [Prevote.setAt] at hh
+  have r3 := Prevote.RunP.step r2 (Prevote.PStep.grant _ 3 3 hg3) (hc _ rfl (by rw [hs0]; decide))
+  rw [← hs0]
+  refine ⟨_, r3, by rw [hs0]; simp [Prevote.setAt], by rw [hs0]; simp, ?_⟩
+  exact C16_no_candidacy_from_rounds_begun_in_contact Repl.cfg3_nodup Repl.quorum12 hreach r3 3 (by rw [hs0]; simp [Prevote.setAt])
 
 end Raft
